@@ -41,6 +41,9 @@ func c16Calibrations() []calibCase {
 		{"-2000/1000", sp("-2000\n1000\n"), true, -2000, 1000},
 		{"2.5/0.5 no trailing newline", sp("2.5\n0.5"), true, 2.5, 0.5},
 		{"divider zero", sp("1000\n0\n"), true, 1000, 0},
+		{"29/100 (ratio not representable in binary)", sp("29\n100\n"), true, 29, 100},
+		{"1/3", sp("1\n3\n"), true, 1, 3},
+		{"-7/10", sp("-7\n10\n"), true, -7, 10},
 		{"abc", sp("abc\n1000\n"), false, 0, 0},
 		{"one line", sp("1000\n"), false, 0, 0},
 		{"empty", sp(""), false, 0, 0},
@@ -122,7 +125,7 @@ func recordsEqual(got, want []client.EnergyRecord, loose map[int]bool) bool {
 
 func c16Rows(genesis int64) []string {
 	tss := []string{fmt.Sprint(genesis - 1), fmt.Sprint(genesis), fmt.Sprint(genesis + 299), fmt.Sprint(genesis + 300), fmt.Sprint(genesis + 1<<32 - 1), "abc", ""}
-	vals := []string{"0", "23.999", "24", "-24", "-23.999", "1e3", "-1e3", "2.5e9", "abc", "", "1e400", "NaN", "9.3e18", "24.9"}
+	vals := []string{"0", "23.999", "24", "-24", "-23.999", "1e3", "-1e3", "2.5e9", "abc", "", "1e400", "NaN", "9.3e18", "24.9", "100", "-100", "300", "-90"}
 	var rows []string
 	for _, t := range tss {
 		for _, v := range vals {
@@ -274,7 +277,7 @@ func init() {
 			}
 		}
 		run.Assumption("timestamps at or beyond genesis+2^32 seconds are outside the stated domain and not generated; for NaN/Inf/overflowing scaled values only the absence of a crash is asserted")
-		return runJobCheck(run, "c16", jobs, "all CSV files of 0..2 rows from 7 timestamps x 14 readings in 8 shapes (header, none, no trailing newline, one-column first/later row, three columns, quoted, CRLF) x 9 calibration settings, read by the real reader of a real client; distinct = (shape, number of records) x calibration; non-trivial = files that yield at least one record")
+		return runJobCheck(run, "c16", jobs, "all CSV files of 0..2 rows from 7 timestamps x 18 readings in 8 shapes (header, none, no trailing newline, one-column first/later row, three columns, quoted, CRLF) x 20 calibration settings (incl. ratios that are not representable in binary, where m*x/d and (m/d)*x differ), read by the real reader of a real client; distinct = (shape, number of records) x calibration; non-trivial = files that yield at least one record")
 	}
 }
 
